@@ -272,6 +272,13 @@ func vpInv(e *vEnv, assert bool) bool {
 	if d.preBlockProcessed {
 		// the pre-block is processed once per HEIGHT: the flag survives view changes
 		m.req("C01,C02,C05,C07", "INV.13.predecided", amev)
+		if !assert {
+			// Global fact, assumed only (not inductive for one node in isolation): the view
+			// does not change after the pre-block was processed, because M validators sent
+			// valid pre-commits, M-F of them are honest and locked, and the remaining 2F < M
+			// cannot form a change-view quorum. Hence the proposal is still known.
+			m.req("", "INV.G1.predecided.proposal", req != nil && vpHasAllTx(d))
+		}
 	}
 	// 14 timer
 	if !d.Context.WatchOnly() && !d.blockProcessed {
